@@ -168,11 +168,17 @@ def run_once(prog, table, seeds, nested, cycles=2):
         rseeds.append((sid, wr))
     g = netad.total_gradient(J, rseeds)
     sigs, mods = build(prog, a0, b0)
+    # the same network with the (silent, threshold) timing option of Network, flat or on the inner network: a keyword
+    # alternative of the same call, the derivative is the same
+    timed = isinstance(nested, (list, tuple)) and len(nested) > 0 and nested[0] == 'timed'
+    if timed:
+        nested = nested[1] if len(nested) > 1 else None
+    tkw = {'print_timing': 1e6} if timed else {}
     if nested is not None:
         i, j = nested
-        net = pym.Network(mods[:i] + [pym.Network(mods[i:j])] + mods[j:])
+        net = pym.Network(mods[:i] + [pym.Network(mods[i:j], **tkw)] + mods[j:], **tkw)
     else:
-        net = pym.Network(mods)
+        net = pym.Network(mods, **tkw)
     bad = []
     ncmp = 0
     for cyc in range(cycles):
@@ -239,6 +245,7 @@ def execute(case):
     else:
         seedsets = [[s] for s in produced] + [list(c) for c in itertools.combinations(produced, 2)]
         nests = nestings(len(prog))
+        nests = nests + [['timed']] + [['timed', n_] for n_ in nests[1:2]]
     V = []
     nexec = 0
     ncmp = 0
